@@ -430,9 +430,9 @@ func noteProgress(out string, i int, ts taggedScen) {
 // specName: the predicate the case files apply for a property
 func specName(prop string) string {
 	switch prop {
-	case "C05":
-		return "spec_C05y"
-	case "C02", "C17", "C18", "C04":
+	case "C05", "C04":
+		return "spec_" + prop + "y"
+	case "C02", "C17", "C18":
 		return "spec_" + prop + "x"
 	}
 	return "spec_" + prop
